@@ -1,9 +1,9 @@
 SPECIFICATION Spec
 CONSTANTS
- Fam = "fasta"
- P1 = 4
- P2 = 3
- Dev = {}
+ Fam = "sensgen"
+ P1 = 0
+ P2 = 0
+ Dev = {"TreePath"}
 INVARIANT Shape
 INVARIANT Final
 INVARIANT RoundTrip
